@@ -56,19 +56,18 @@ struct ThreadRec {
   int id = -1;
   St st = READY;
   bool parked = false;       // waiting for a grant (READY) / for a notify (SLEEP)
-  bool granted = false;
   bool joined = false;
   const void* sleep_on = nullptr;
   int join_target = -1;      // >=0: the pending operation is join(join_target)
   ThreadRec* join_rec = nullptr;
-  std::condition_variable cv;   // this thread waits here for its grant
-  std::thread os;
+  std::atomic<int> go{0};       // set by the controller to grant one step
+  std::atomic<int> started{0};  // set when the thread reaches its first scheduling point (or finishes)
 };
 
 // One scheduler per op line (an abandoned one keeps its parked threads forever; see harness).
 struct Sched {
   std::mutex mu;
-  std::condition_variable cv;        // the controller (and a thread creating a child) wait here
+  std::atomic<int> back{0};          // set when the granted thread has parked again / finished
   std::vector<ThreadRec*> th;        // index = thread id; 0 = dispatcher, 1.. = workers of the live pool
   std::vector<std::string> trace;    // event tokens
   int active = -1;                   // id of the thread currently allowed to run (-1: controller)
@@ -129,23 +128,111 @@ inline void free_yield() {
 
 // ---- CTRL mode primitives (called by controlled threads) -------------------------------------------------
 
+// hand control back: called with the thread's new state already decided
+inline void yield_control(Sched* s, ThreadRec* me, ThreadRec::St st, const void* on, int join_target,
+                          ThreadRec* join_rec) {
+  bool sig_ctl = false, sig_creator = false;
+  {
+    std::lock_guard<std::mutex> lk(s->mu);
+    me->st = st;
+    me->sleep_on = on;
+    me->join_target = join_target;
+    me->join_rec = join_rec;
+    me->parked = true;
+    if (s->active == me->id) {
+      s->active = -1;
+      sig_ctl = true;
+    }
+    if (s->starting == me) {
+      s->starting = nullptr;
+      sig_creator = true;
+    }
+  }
+  if (sig_creator) {
+    me->started.store(1);
+    me->started.notify_all();
+  }
+  if (sig_ctl) {
+    s->back.store(1);
+    s->back.notify_all();
+  }
+}
+
 // park the calling thread in state `st` and wait until the controller grants it one step
 inline void park(ThreadRec::St st, const void* on = nullptr, int join_target = -1, ThreadRec* join_rec = nullptr) {
   Sched* s = G().sched;
   ThreadRec* me = tl_self;
-  std::unique_lock<std::mutex> lk(s->mu);
-  me->st = st;
-  me->sleep_on = on;
-  me->join_target = join_target;
-  me->join_rec = join_rec;
-  me->parked = true;
-  if (s->active == me->id) s->active = -1;
-  s->cv.notify_all();
-  me->cv.wait(lk, [&] { return me->granted; });
-  me->granted = false;
+  yield_control(s, me, st, on, join_target, join_rec);
+  while (me->go.load() == 0) me->go.wait(0);
+  me->go.store(0);
+  std::lock_guard<std::mutex> lk(s->mu);
   me->parked = false;
   me->join_target = -1;
   me->join_rec = nullptr;
+}
+
+// OS threads that carry the controlled threads of successive runs (creating one per std::thread of every
+// replayed schedule dominates the cost otherwise).  A carrier runs one job at a time.
+struct Carrier {
+  std::thread os;
+  std::atomic<int> has{0};
+  std::function<void()> job;
+};
+
+struct CarrierPool {
+  std::mutex mu;
+  std::vector<Carrier*> free;
+};
+
+inline CarrierPool& carriers() {
+  static CarrierPool* p = new CarrierPool();   // never destroyed: carriers are detached
+  return *p;
+}
+
+inline void carrier_run(std::function<void()> job) {
+  CarrierPool& cp = carriers();
+  Carrier* c = nullptr;
+  {
+    std::lock_guard<std::mutex> lk(cp.mu);
+    if (!cp.free.empty()) {
+      c = cp.free.back();
+      cp.free.pop_back();
+    }
+  }
+  if (!c) {
+    c = new Carrier();
+    c->os = std::thread([c]() {
+      CarrierPool& cp = carriers();
+      for (;;) {
+        while (c->has.load() == 0) c->has.wait(0);
+        c->job();
+        c->job = nullptr;
+        c->has.store(0);
+        std::lock_guard<std::mutex> lk(cp.mu);
+        cp.free.push_back(c);
+      }
+    });
+    c->os.detach();
+  }
+  c->job = std::move(job);
+  c->has.store(1);
+  c->has.notify_all();
+}
+
+// start a controlled thread running `fn`; returns once it has parked at its first scheduling point or finished
+template <class Fn>
+inline void start_thread(Sched* s, ThreadRec* r, Fn fn) {
+  {
+    std::lock_guard<std::mutex> lk(s->mu);
+    s->starting = r;
+  }
+  carrier_run([s, r, fn]() mutable {
+    tl_self = r;
+    fn();
+    tl_self = nullptr;
+    yield_control(s, r, ThreadRec::DONE, nullptr, -1, nullptr);
+  });
+  while (r->started.load() == 0) r->started.wait(0);
 }
 
 inline bool controlled() { return G().mode.load(std::memory_order_relaxed) == CTRL && tl_self != nullptr; }
@@ -352,26 +439,12 @@ class thread {
       Sched* s = G().sched;
       ThreadRec* r = new ThreadRec();
       {
-        std::unique_lock<std::mutex> lk(s->mu);
+        std::lock_guard<std::mutex> lk(s->mu);
         r->id = (int)s->th.size();
         s->th.push_back(r);
-        s->starting = r;
       }
-      r->os = std::thread([s, r, fn]() mutable {
-        tl_self = r;
-        fn();
-        std::unique_lock<std::mutex> lk(s->mu);
-        r->st = ThreadRec::DONE;
-        r->parked = true;
-        if (s->active == r->id) s->active = -1;
-        s->cv.notify_all();
-      });
-      {
-        // the child runs up to its first scheduling point (or to completion) before the creator continues
-        std::unique_lock<std::mutex> lk(s->mu);
-        s->cv.wait(lk, [&] { return r->parked; });
-        s->starting = nullptr;
-      }
+      // the child runs up to its first scheduling point (or to completion) before the creator continues
+      start_thread(s, r, fn);
       emit(tok(tl_self->id, "spawn", std::to_string(r->id)));
       rec_ = r;
       return;
@@ -393,7 +466,6 @@ class thread {
     if (rec_) {
       ThreadRec* r = rec_;
       park(ThreadRec::READY, nullptr, r->id, r);   // enabled only once the target is DONE
-      r->os.join();
       {
         Sched* s = G().sched;
         std::lock_guard<std::mutex> lk(s->mu);
